@@ -409,6 +409,34 @@ func probeWord(n, i uint32) uint32 {
 			return w
 		}
 	}
+	// Fallback for samplers whose map from raw words to alternatives is monotone but none of the
+	// simple candidates (top-bits-with-rejection, say): binary search over the raw word, stepping over
+	// rejected words; a region of rejected words is taken to lie above the accepted ones.
+	lo, hi := uint64(0), uint64(math.MaxUint32)
+	for lo <= hi {
+		mid := (lo + hi) / 2
+		r, ok := probeOnce(n, uint32(mid))
+		for d := uint64(1); !ok && d <= 8 && mid+d <= hi; d++ {
+			r, ok = probeOnce(n, uint32(mid+d))
+			if ok {
+				mid += d
+			}
+		}
+		switch {
+		case ok && r == i:
+			if len(probeCache) < 1<<20 {
+				probeCache[key] = uint32(mid)
+			}
+			return uint32(mid)
+		case ok && r < i:
+			lo = mid + 1
+		default:
+			if mid == 0 {
+				panic(sentCannotDrive)
+			}
+			hi = mid - 1
+		}
+	}
 	panic(sentCannotDrive)
 }
 
